@@ -17,7 +17,9 @@ CLAIMED = {
         "permissions/time), EVERY content <= 2^32-1 bytes, every compressor and 32-bit checksum function:  (start_file; "
         "write_all)*; finish  succeed and the reader opens the result, lists the entries in order, and entry i's reader "
         "DENOTES content i, so every completed read under every schedule of buffer sizes returns exactly that content (C09 "
-        "lift), with the written name, method, sizes, CRC.  The reader's blind spot "
+        "lift), with the written name, method, sizes, CRC; and not only on a sink that takes every write whole: over ANY "
+        "failure-free sink that splits writes arbitrarily the same program succeeds and finish() returns the very same bytes "
+        "(C01_roundtrip_any_chunking, from the writer simulation of C09).  The reader's blind spot "
         "is an explicit hypothesis and a recorded known finding (D22: bytes in front of the end record that look like a "
         "ZIP64 locator), with a model witness.  Compressed and encrypted entries, k-entry programs, drop vs finish, and the "
         "tie of both models to the crate are carried by the correspondence: the writer model reproduces the crate's archive "
